@@ -11,7 +11,7 @@ from ..runner import Outcome, fail
 
 ID = 'C19'
 LEVEL = 'exploration'
-RULE = ('Each case names a sub-command, a backend (local, s3c, s3, b2, or the custom "pc" backend discovered through the '
+RULE = ('Each case names a sub-command, a backend (local, s3c, s3, b2, or the custom "pc" / annotated "pca" backends discovered through the '
         'replicat.backends namespace package), one option and a generated subset of the sources {CLI, environment, profile, '
         'default section} with per-source values (TOML strings and native ints/bools; literal-looking, quoted, none/true '
         'values). replicat.__main__.main() runs in a pristine forked child per invocation with its own argv, environ and TOML '
@@ -34,8 +34,9 @@ BACKEND_OPTS = {
     's3': ['key_id', 'access_key', 'region'],
     'b2': ['key_id', 'application_key'],
     'pc': ['account_id', 'secret', 'port', 'legacy'],
+    'pca': ['account_id', 'secret', 'port', 'legacy'],
 }
-ENV_PREFIX = {'s3c': 'S3C', 's3': 'S3', 'b2': 'B2', 'pc': 'PROUDCLOUD'}
+ENV_PREFIX = {'s3c': 'S3C', 's3': 'S3', 'b2': 'B2', 'pc': 'PROUDCLOUD', 'pca': 'PCA'}
 CORE_OPTS = ['repository', 'concurrent', 'hide-progress', 'cache-directory', 'no-cache', 'password', 'password-file', 'key-file', 'key',
              'log-level']
 TEXT_VALUES = ['abc', 'us-east-1', '123', '"123"', "'x'", 'true', 'True', 'none', 'None', '1.5', 'a b', '0x10', '[1]', 'k/e+y=', 'ünï',
@@ -52,7 +53,7 @@ def budget(tier):
 @st.composite
 def cases(draw):
     kind = draw(st.sampled_from(['precedence', 'precedence', 'precedence', 'independence', 'defaults', 'exclusive']))
-    backend = draw(st.sampled_from(['local', 's3c', 's3', 'b2', 'pc', 'pc']))
+    backend = draw(st.sampled_from(['local', 's3c', 's3', 'b2', 'pc', 'pca', 'pca']))
     cmd = draw(st.sampled_from(sorted(COMMANDS)))
     c = {'kind': kind, 'backend': backend, 'cmd': cmd}
     if kind == 'exclusive':
@@ -93,6 +94,22 @@ ProudCloud.__abstractmethods__ = frozenset()
 Client = ProudCloud
 '''
 
+# the same backend with annotated constructor options (annotations must not change how values are coerced)
+PCA_SOURCE = '''
+from .base import Backend
+
+
+class ProudCloudAnnotated(Backend, short_name='PCA'):
+    def __init__(self, connection_string, *, account_id: str, secret: str, port: int = 9_876, legacy: bool = False):
+        self.recorded = dict(connection_string=connection_string, account_id=account_id, secret=secret, port=port, legacy=legacy)
+
+    exists = upload = upload_stream = download = download_stream = list_files = delete = None
+
+
+ProudCloudAnnotated.__abstractmethods__ = frozenset()
+Client = ProudCloudAnnotated
+'''
+
 _pc_dir = None
 
 
@@ -103,6 +120,8 @@ def shard_setup(tier):
     os.makedirs(os.path.join(_pc_dir, 'replicat', 'backends'))
     with open(os.path.join(_pc_dir, 'replicat', 'backends', 'pc.py'), 'w') as f:
         f.write(PC_SOURCE)
+    with open(os.path.join(_pc_dir, 'replicat', 'backends', 'pca.py'), 'w') as f:
+        f.write(PCA_SOURCE)
     sys.path.append(_pc_dir)
     import replicat.__main__  # noqa: preload, main() is only ever run in forked children
     import replicat.backends.b2  # noqa
@@ -359,7 +378,7 @@ def _run(case, work):
     option = case['option']
     classes.append('option:' + option)
     required = {'s3c': ['key_id', 'access_key', 'region', 'host'], 's3': ['key_id', 'access_key', 'region'],
-                'b2': ['key_id', 'application_key'], 'pc': ['account_id', 'secret'], 'local': []}[case['backend']]
+                'b2': ['key_id', 'application_key'], 'pc': ['account_id', 'secret'], 'pca': ['account_id', 'secret'], 'local': []}[case['backend']]
 
     def base():
         inv = Invocation(case, work)
@@ -380,7 +399,7 @@ def _run(case, work):
         for k, v in want.items():
             if obs[k] != v:
                 return Outcome(fail('defaults', f'built-in default of {k} is {obs[k]}, expected {v}'), classes)
-        if case['backend'] == 'pc':
+        if case['backend'] in ('pc', 'pca'):
             kw = obs['backend_kwargs']
             if kw.get('port') != ['int', '9876'] or kw.get('legacy') != ['bool', 'False']:
                 return Outcome(fail('defaults', f'constructor defaults not used: {kw}'), classes)
@@ -456,7 +475,7 @@ def _exclusive(case, work, classes):
     classes.append('pair:' + pair)
     inv = Invocation(case, work)
     for o in {'s3c': ['key_id', 'access_key', 'region', 'host'], 's3': ['key_id', 'access_key', 'region'],
-              'b2': ['key_id', 'application_key'], 'pc': ['account_id', 'secret'], 'local': []}[case['backend']]:
+              'b2': ['key_id', 'application_key'], 'pc': ['account_id', 'secret'], 'pca': ['account_id', 'secret'], 'local': []}[case['backend']]:
         inv.argv_opts += ['--' + o.replace('_', '-'), 'req-' + o]
     pwfile = os.path.join(work, 'pwfile')
     with open(pwfile, 'w') as f:
